@@ -435,8 +435,25 @@ func trackTemp(paths ...string) {
 //
 // members > 1 writes a gzip file of that many concatenated members (as `cat a.gz b.gz` or bgzip
 // produce); such a file is a valid gzip file with the concatenated content.
+//
+// The file name contains the characters that mean something to a shell or to filepath.Glob
+// ('[', ']', '*', '?', a space): a path is a path, File must open exactly this file. Two decoy
+// files that the name would match if it were taken for a pattern are written next to it - the
+// first malformed for every format, the second a valid small input - so that a File that
+// expands patterns reads something else.
 func writeTemp(data []byte, suffix string, members ...int) string {
-	p := filepath.Join(scratchDir(), fmt.Sprintf("f%d%s", nextTmp(), suffix))
+	seqNo := nextTmp()
+	p := filepath.Join(scratchDir(), fmt.Sprintf("f%d_[%d]*? x%s", seqNo, seqNo%10, suffix))
+	if !strings.HasSuffix(suffix, ".gz") {
+		format := strings.TrimPrefix(suffix, ".")
+		if in, ok := smallInputs[format]; ok {
+			d1 := filepath.Join(scratchDir(), fmt.Sprintf("f%d_%d-decoy-a x%s", seqNo, seqNo%10, suffix))
+			d2 := filepath.Join(scratchDir(), fmt.Sprintf("f%d_%d-decoy-b x%s", seqNo, seqNo%10, suffix))
+			os.WriteFile(d1, []byte("\x00(:'@+>\t\x00\n"), 0o644)
+			os.WriteFile(d2, []byte(in[0]), 0o644)
+			trackTemp(d1, d2)
+		}
+	}
 	if strings.HasSuffix(suffix, ".gz") {
 		n := 1
 		if len(members) > 0 && members[0] > 1 {
